@@ -4,7 +4,8 @@ VROOT=$(cd "$(dirname "$0")/.." && pwd)
 # (never in /repo itself) and examined with VERIF_REPO=<worktree> ./check <prop>.  One line per seed.
 jobs=${1:-8}; tier=${2:-quick}
 cd $VROOT
-ls -d seeded/*/*/ | sort > /tmp/seedlist.$$
+# SEEDLIST=<file> restricts the run to the seed directories listed in it (one 'seeded/<prop>/<name>/' per line)
+if [ -n "$SEEDLIST" ]; then cp "$SEEDLIST" /tmp/seedlist.$$; else ls -d seeded/*/*/ | sort > /tmp/seedlist.$$; fi
 # the scratch worktrees one after the other (concurrent `git worktree add` calls can lose to each other's lock)
 k=0
 while [ $k -lt $jobs ]; do
